@@ -199,8 +199,8 @@ PROPS['C09'] = {
     'title': 'Exceptions propagate and leave every container consistent and leak-free',
     'level': 'fault_enumeration',
     'engine': 'F',
-    'parts': [{'src': 'harness/faults.cpp', 'prefix': 'C09/', 'variants': ['g17'], 'quick_variants': ['g17O0'], 'defs': ['VERIF_SUB=%d' % i]} for i in range(5)],
-    'rule': 'BFS over small states of CallbackList, EventDispatcher with a throwing key type (std::map and std::unordered_map), EventQueue (plain, OrderedQueueList with a throwing comparator, MixinFilter), HeterCallbackList/HeterEventDispatcher, and ScopedRemover/CounterRemover/ConditionalRemover adds; in every state every operation is executed once per fault point with exactly that point failing (replaced global operator new -> std::bad_alloc; callback copy/invoke, key copy/compare/hash, argument copy/move/assign, predicate, filter, comparator, enumeration functor -> injected exception); the number of fault points per operation is discovered, not assumed; after each injected run: exception type at the caller, container vs the unchanged (or per-guarantee) model by observation, ledger, emptiness/waiting, then the search continues from the post-fault state (faults in succession); distinct = distinct (observation, fault site) outcome hashes',
+    'parts': [{'src': 'harness/faults.cpp', 'prefix': 'C09/', 'variants': ['g17'], 'quick_variants': ['g17O0'], 'defs': ['VERIF_SUB=%d' % i]} for i in range(6)],
+    'rule': 'BFS over small states of CallbackList, EventDispatcher with a throwing key type (std::map and std::unordered_map), EventQueue (plain, OrderedQueueList with a throwing comparator, MixinFilter), HeterCallbackList/HeterEventDispatcher, HeterEventQueue (int and throwing-payload prototypes), and ScopedRemover/CounterRemover/ConditionalRemover adds; in every state every operation is executed once per fault point with exactly that point failing (replaced global operator new -> std::bad_alloc; callback copy/invoke, key copy/compare/hash, argument copy/move/assign, predicate, filter, comparator, enumeration functor -> injected exception); the number of fault points per operation is discovered, not assumed; after each injected run: exception type at the caller, container vs the unchanged (or per-guarantee) model by observation, ledger, emptiness/waiting, then the search continues from the post-fault state (faults in succession); distinct = distinct (observation, fault site) outcome hashes',
     'assumptions': ['bounded: <=3 callbacks / <=3 pending events, BFS depth as stated', 'fault points inside destructors and inside noexcept standard-library internals are not injected (the language forbids throwing there)',
                     'std::terminate is trapped and reported as a violation', 'guarantee per operation as in the property: strong for listener management (also through the removers), enqueue, peekEvent, callback-list copy assignment; source untouched + destination valid for copies; callbacks\' own effects stand for invocations; only taken-out events lost for process*; no leak + usable for the rest'],
     'bounds': {'quick': 'depth 3, one fault per operation (pairs arise across consecutive operations)', 'thorough': 'depth 4-5, up to two faults inside one operation'},
